@@ -263,11 +263,12 @@ func (fl *Flow) KillAfter(fact string, m M) *Flow {
 
 // FnResult holds the fixpoint for one function.
 type FnResult struct {
-	Fn    *ssa.Function
-	fl    *Flow
-	in    map[*ssa.BasicBlock]State
-	out   map[*ssa.BasicBlock]State
-	depth int
+	phiDepth int
+	Fn       *ssa.Function
+	fl       *Flow
+	in       map[*ssa.BasicBlock]State
+	out      map[*ssa.BasicBlock]State
+	depth    int
 }
 
 func isLocalFact(f string) bool {
@@ -375,6 +376,49 @@ func (r *FnResult) condFacts(cond ssa.Value, branch bool, s *State) {
 			continue
 		}
 		break
+	}
+	// A boolean built by short-circuit evaluation and then tested (`switch { case a || b: }`,
+	// `x := a && b; if x`): the branch tells which incoming edges of the phi are feasible; what
+	// holds on every feasible edge (including what that edge's own operand implies) holds here.
+	if phi, ok := cond.(*ssa.Phi); ok && r.phiDepth < 3 {
+		onlyPhisBefore := true
+		for _, in := range phi.Block().Instrs {
+			if _, isPhi := in.(*ssa.Phi); isPhi {
+				continue
+			}
+			if _, isIf := in.(*ssa.If); !isIf {
+				onlyPhisBefore = false
+			}
+			break
+		}
+		if onlyPhisBefore {
+			acc := topState()
+			for i, e := range phi.Edges {
+				if k, isK := e.(*ssa.Const); isK && k.Value != nil {
+					if (k.Value.String() == "true") != branch {
+						continue // this edge would have produced the other outcome
+					}
+				}
+				pred := phi.Block().Preds[i]
+				es := r.edgeState(pred, phi.Block())
+				if es.top {
+					continue
+				}
+				if _, isK := e.(*ssa.Const); !isK {
+					r.phiDepth++
+					r.condFacts(e, branch, &es)
+					r.phiDepth--
+				}
+				acc = meet(acc, es)
+			}
+			if !acc.top {
+				for k := range acc.m {
+					if !isLocalFact(k) {
+						s.add(k)
+					}
+				}
+			}
+		}
 	}
 	for _, sp := range r.fl.specs {
 		if sp.kind == KillEdgeKind {
